@@ -83,7 +83,9 @@ func (line *Line) ContainsLine(other *Line) bool {
 		return false
 	}
 	otherNumSegments := other.NumSegments()
+	verifSteps := 0
 	for i := 1; i < otherNumSegments; i++ {
+		verifSteps = verifStep("line.go:ContainsLine", verifSteps, (lineNumSegments+1)*(otherNumSegments+1))
 		lineSeg := line.SegmentAt(segIdx)
 		otherSeg := other.SegmentAt(i)
 		if lineSeg.ContainsSegment(otherSeg) {
